@@ -131,6 +131,7 @@ def run_property(prop, tier="quick", root="/repo/verde", overlay=None, write=Tru
             from .rules import common as _common
             _common.dead_parameters(ctx)
             _common.permutation_gather(ctx)
+            _common.shared_contracts(ctx)
     except UndecidedFunction as e:
         err = "ANALYSIS-UNDECIDED property=%s unsupported construct in %s" % (prop, e)
     except AnalysisError as e:
